@@ -18,7 +18,7 @@
  */
 extern void *mpt_qpop(MPT_STRUCT(queue) *queue, size_t len, void *data)
 {
-	size_t low, high;
+	size_t low, high, part;
 	uint8_t *base;
 	
 	/* get data contentent/offset at queue end */
@@ -31,6 +31,7 @@ extern void *mpt_qpop(MPT_STRUCT(queue) *queue, size_t len, void *data)
 			errno = ERANGE;
 			return 0;
 		}
+		base += low - len;
 		if (data) {
 			memcpy(data, base, len);
 		}
@@ -41,14 +42,14 @@ extern void *mpt_qpop(MPT_STRUCT(queue) *queue, size_t len, void *data)
 			errno = EINVAL;
 			return 0;
 		}
-		len -= high;
-		if (len > low) {
+		part = len - high;
+		if (part > low) {
 			errno = ERANGE;
 			return 0;
 		}
-		base = ((uint8_t *) queue->base) + queue->max - len;
-		memcpy(data, base, high);
-		memcpy(((uint8_t *) data) + len, queue->base, high);
+		base = ((uint8_t *) queue->base) + queue->max - part;
+		memcpy(data, base, part);
+		memcpy(((uint8_t *) data) + part, queue->base, high);
 		
 		base = data;
 	}
